@@ -59,6 +59,10 @@ def run_worker(pid, tier, spec, workdir, idx, mode="shard"):
         )
     except subprocess.TimeoutExpired:
         return {"harness_error": f"shard {idx} exceeded the wall-clock watchdog of {timeout}s", "spec": spec}
+    if p.returncode < 0 and mode == "shard":
+        # the worker was killed by a signal (e.g. SIGSEGV inside a C library driven by the code under test with
+        # garbage it computed): that is a crash of the command, not a problem of the harness
+        return {"crashed": -p.returncode, "spec": spec, "stderr": p.stderr.decode(errors="replace")[-400:]}
     if p.returncode != 0 or not os.path.exists(outfile):
         return {
             "harness_error": f"worker for shard {idx} exited {p.returncode}: "
@@ -138,7 +142,15 @@ def main(argv):
         if replay_file:
             with open(replay_file) as f:
                 rep = json.load(f)
-            spec = {"case": rep["case"], "hashseed": rep["case"].get("hashseed", 0)}
+            if "crashed_shard" in rep["case"]:
+                r2 = run_worker(pid, tier, rep["case"]["crashed_shard"], workdir, 0)
+                if "crashed" in r2:
+                    print(f"replay: the shard's process dies again with signal {r2['crashed']}")
+                    print(f"VIOLATION property={pid} replay={replay_file}")
+                    return 1
+                print("replay: the shard completes on this tree")
+                return 0
+            spec = {"case": rep["case"], "hashseed": rep["case"].get("hashseed", 0), "sig": rep.get("signature")}
             res = run_worker(pid, tier, spec, workdir, 0, mode="replay")
             if "harness_error" in res:
                 print("HARNESS-ERROR:", res["harness_error"])
@@ -165,6 +177,17 @@ def main(argv):
             futs = {ex.submit(run_worker, pid, tier, specs[i], workdir, i): i for i in order}
             for fu in cf.as_completed(futs):
                 results[futs[fu]] = fu.result()
+        crashed = [r for r in results if "crashed" in r]
+        crash_failures = []
+        for r in crashed:
+            # deterministic? the same shard must crash again
+            again = run_worker(pid, tier, r["spec"], workdir, 8000 + len(crash_failures))
+            if "crashed" not in again:
+                print(f"HARNESS-ERROR: a worker died with signal {r['crashed']} but the same shard completes on a second run")
+                return 2
+            crash_failures.append({"sig": f"{pid}/crash:signal-{r['crashed']}", "what": f"the process running the code under test died with signal {r['crashed']} (reproduced on a second run of the same shard); stderr: {r['stderr'].strip()[-200:]}",
+                                   "case": {"crashed_shard": r["spec"], "signal": r["crashed"]}})
+        results = [r if "crashed" not in r else {"evaluations": 0, "nontrivial": 0, "failures": [], "samples": [], "stats": {}, "sets": {}} for r in results]
         herr = [r for r in results if "harness_error" in r]
         if herr:
             for r in herr:
@@ -198,6 +221,7 @@ def main(argv):
                 print("HARNESS-ERROR:", fin["harness_error"])
                 return 2
 
+        failures.extend(crash_failures)
         known = load_known()
         hits, viol = classify(pid, failures, known)
         for sig, (ent, n) in sorted(hits.items()):
@@ -215,17 +239,23 @@ def main(argv):
         for sig, fl in sorted(by_sig.items()):
             f = min(fl, key=lambda x: len(json.dumps(x["case"])))
             # determinism: the failing case must fail again, with the same signature, in a fresh process
-            spec = {"case": f["case"], "hashseed": f["case"].get("hashseed", 0)}
-            rr = run_worker(pid, tier, spec, workdir, 9000 + nviol, mode="replay")
+            if "crashed_shard" in f["case"]:
+                rr = {"failures": [f]}  # already re-run above
+            else:
+                spec = {"case": f["case"], "hashseed": f["case"].get("hashseed", 0), "sig": sig}
+                rr = run_worker(pid, tier, spec, workdir, 9000 + nviol, mode="replay")
             if "harness_error" in rr:
                 print("HARNESS-ERROR: replay of a failing case crashed the worker:", rr["harness_error"])
                 return 2
-            if not any(x["sig"] == sig for x in rr["failures"]):
+            if not rr["failures"]:
                 print(
                     f"HARNESS-ERROR: failure [{sig}] did not reproduce in a fresh process "
-                    f"(got {[x['sig'] for x in rr['failures']]}); not reported as a violation"
+                    f"(the case passes there); not reported as a violation"
                 )
                 return 2
+            if not any(x["sig"] == sig for x in rr["failures"]):
+                # the case fails again, only differently classified (e.g. a wild seek that reads other garbage)
+                print(f"  note: in a fresh process the case of [{sig}] fails as {sorted({x['sig'] for x in rr['failures']})}")
             path = write_replay(pid, f, tier, seed)
             total = stats.get("failures:" + sig, len(fl))
             print(f"  [{sig}] {f['what']}  ({total} failing case(s))")
